@@ -28,12 +28,12 @@ LEVEL = {"C02": "exploration", "C04": "exploration"}
 
 PLAN = {
     "C02": {
-        "quick": {"runs": 1600, "wall_cap": 100, "chunk": 10, "selftest": 8},
-        "thorough": {"runs": 40000, "wall_cap": 1500, "chunk": 25, "selftest": 40},
+        "quick": {"runs": 2400, "wall_cap": 100, "chunk": 10, "selftest": 8},
+        "thorough": {"runs": 80000, "wall_cap": 1700, "chunk": 25, "selftest": 40},
     },
     "C04": {
-        "quick": {"runs": 1600, "wall_cap": 100, "chunk": 10, "selftest": 8},
-        "thorough": {"runs": 40000, "wall_cap": 1500, "chunk": 25, "selftest": 40},
+        "quick": {"runs": 16000, "wall_cap": 100, "chunk": 50, "selftest": 8},
+        "thorough": {"runs": 600000, "wall_cap": 1700, "chunk": 200, "selftest": 40},
     },
 }
 
